@@ -218,6 +218,14 @@ impl Ctx {
 fn ver_fields(v: &SrpVerifier) -> Vec<(&'static str, String)> {
     vec![
         ("user", hex(v.username().as_bytes())),
+        // the same name as an application holding the credential object would write it to storage: through Display
+        (
+            "user_display",
+            match NormalizedString::new(v.username()) {
+                Ok(n) => hex(n.to_string().as_bytes()),
+                Err(_) => hex(v.username().as_bytes()),
+            },
+        ),
         ("v", hex(v.password_verifier())),
         ("salt", hex(v.salt())),
     ]
@@ -734,6 +742,78 @@ fn run(ctx: &mut Ctx, op: &str, a: &Args) -> Res {
             ctx.store.clear();
             ctx.store_order.clear();
             Ok(vec![("pending", format!("{}", hook::script_clear()))])
+        }
+        "mt_first_use" => {
+            // the FIRST use of the login code in the life of this process happens on several threads at the same moment (all
+            // clients coming back to a server that was just restarted): every thread prepares its inputs with calls of the
+            // other role, waits at a barrier, then all make the judged call at once; one sequential login follows
+            let threads = a.opt("threads").and_then(|t| t.parse::<usize>().ok()).unwrap_or(16).min(64);
+            let mode = a.opt("mode").unwrap_or("server").to_string();
+            let barrier = std::sync::Arc::new(std::sync::Barrier::new(threads));
+            let mut handles = Vec::new();
+            for ti in 0..threads {
+                let barrier = barrier.clone();
+                let mode = mode.clone();
+                handles.push(std::thread::spawn(move || -> String {
+                    let u = NormalizedString::new(format!("FIRST{}", ti)).unwrap();
+                    let p = NormalizedString::new("USE").unwrap();
+                    if mode == "server" {
+                        // inputs come from fixed values (no client-side call of the library before the barrier): verifier 1, A = 2
+                        let mut v1 = [0u8; 32];
+                        v1[0] = 1 + ti as u8;
+                        let ver = SrpVerifier::from_database_values(u, v1, [7u8; 32]);
+                        let proof = ver.into_proof();
+                        let mut a_pub = [0u8; 32];
+                        a_pub[0] = 2 + ti as u8;
+                        let apk = match PublicKey::from_le_bytes(a_pub) {
+                            Ok(k) => k,
+                            Err(_) => return "harness".into(),
+                        };
+                        barrier.wait();
+                        match catch_unwind(AssertUnwindSafe(|| proof.into_server(apk, [0x5au8; 20]).is_ok())) {
+                            Ok(_) => "answered".into(),
+                            Err(_) => format!("panic:{}", LAST_PANIC.with(|p| p.borrow_mut().take()).unwrap_or_default().replace([',', ';', '\t', '\n'], " ")),
+                        }
+                    } else {
+                        let mut b_pub = [0u8; 32];
+                        b_pub[1] = 3 + ti as u8;
+                        let bpk = match PublicKey::from_le_bytes(b_pub) {
+                            Ok(k) => k,
+                            Err(_) => return "harness".into(),
+                        };
+                        barrier.wait();
+                        match catch_unwind(AssertUnwindSafe(|| {
+                            let c = SrpClientChallenge::new(u, p, wow_srp::GENERATOR, wow_srp::LARGE_SAFE_PRIME_LITTLE_ENDIAN, bpk, [9u8; 32]);
+                            c.verify_server_proof([0u8; 20]).is_ok()
+                        })) {
+                            Ok(_) => "answered".into(),
+                            Err(_) => format!("panic:{}", LAST_PANIC.with(|p| p.borrow_mut().take()).unwrap_or_default().replace([',', ';', '\t', '\n'], " ")),
+                        }
+                    }
+                }));
+            }
+            let mut res: Vec<String> = Vec::new();
+            for h in handles {
+                res.push(h.join().unwrap_or_else(|_| "panic:thread died".into()));
+            }
+            // one sequential honest login afterwards
+            let after = catch_unwind(AssertUnwindSafe(|| -> Result<bool, String> {
+                let u = NormalizedString::new("AFTER").map_err(|e| e.to_string())?;
+                let p = NormalizedString::new("WARDS").map_err(|e| e.to_string())?;
+                let proof = SrpVerifier::from_username_and_password(u.clone(), p.clone()).into_proof();
+                let bpk = PublicKey::from_le_bytes(*proof.server_public_key()).map_err(|e| e.to_string())?;
+                let c = SrpClientChallenge::new(u, p, wow_srp::GENERATOR, wow_srp::LARGE_SAFE_PRIME_LITTLE_ENDIAN, bpk, *proof.salt());
+                let apk = PublicKey::from_le_bytes(*c.client_public_key()).map_err(|e| e.to_string())?;
+                let (_s, m2) = proof.into_server(apk, *c.client_proof()).map_err(|e| e.to_string())?;
+                Ok(c.verify_server_proof(m2).is_ok())
+            }));
+            let after_s = match after {
+                Ok(Ok(true)) => "ok".to_string(),
+                Ok(Ok(false)) => "client_refused".to_string(),
+                Ok(Err(e)) => format!("refused:{}", e.replace(['\t', '\n'], " ")),
+                Err(_) => format!("panic:{}", LAST_PANIC.with(|p| p.borrow_mut().take()).unwrap_or_default().replace(['\t', '\n'], " ")),
+            };
+            Ok(vec![("results", res.join(",")), ("after", after_s)])
         }
         "mt_logins" => {
             // honest library<->library logins on several threads of this process at once; every login is reported as a
